@@ -292,6 +292,12 @@ def propagation(case, ctx):
     k = rng.randrange(nd)
     d = m.dims[k]
 
+    if case["pick"] % 11 == 5:
+        # numbers held in an object array (read from a spreadsheet, mixed with None once ...): metadata travels all the same
+        sp = dict(sp)
+        sp["values"] = np.asarray(sp["values"]).astype(object)
+        ctx.outcomes['propagation-object-dtype-values'] += 1
+
     def fresh():
         a_ = gen.build(sp)            # carries sentinel attrs + axis sentinels
         if dimkey:
@@ -344,6 +350,10 @@ def propagation(case, ctx):
             ("index-mask", 'carry', lambda a: a.take(mask, axis=d), d),
             ("index-slice", 'carry', lambda a: a.take(sl, axis=d), d),
             ("index-ix", 'carry', lambda a: a.ix[(slice(None),) * k + ([0],)], d),
+            ("index-empty-list", 'carry', lambda a: a.take([], axis=d), d),
+            ("index-empty-array-ix", 'carry', lambda a: a.ix[(slice(None),) * k + (np.array([], dtype=int),)], d),
+            ("index-empty-tuple", 'carry', lambda a: a[(slice(None),) * k + ([],)], d),
+            ("index-all-false-mask", 'carry', lambda a: a.take(np.zeros(n, dtype=bool), axis=d), d),
             ("index-loc-dict", 'carry', lambda a: a.loc[{d: some}], d),
             ("take_axis", 'carry', lambda a: a.take_axis(some, axis=d), d),
             ("compress_axis", 'carry', lambda a: a.compress_axis(mask, axis=d), d),
